@@ -41,13 +41,21 @@ def parse_attrs():
         for key in ('tags', 'events', 'dependencies'):
             mm = re.search(r'\b%s\s*=\s*\[(.*?)\]' % key, args)
             a[key] = re.findall(r'"([^"]*)"', mm.group(1)) if mm else []
-        ps = []
-        for p in params.split(','):
+        ps, pats = [], {}
+        plist = split_args(params)
+        a['has_self'] = bool(plist) and plist[0].replace(' ', '') in ('&self', 'self', '&mutself')
+        for p in plist:
             p = p.strip()
-            if not p or p in ('&self', 'self', '&mut self'):
+            if not p or p.replace(' ', '') in ('&self', 'self', '&mutself'):
                 continue
-            n, t = p.split(':', 1)
-            ps.append((n.strip(), t.strip()))
+            n, t = split_colon(p)
+            if not re.fullmatch(r'\w+', n):
+                # destructuring pattern: the wrapper takes a plain parameter and the first statement re-binds the pattern
+                pn = 'p%d' % len(ps)
+                pats[pn] = n
+                n = pn
+            ps.append((n, t))
+        a['patterns'] = pats
         a['params'] = ps
         a['is_result'] = a['ret'].replace(' ', '').startswith(('Result<', 'std::result::Result<'))
         res[name] = a
@@ -60,6 +68,19 @@ def find_fixture_fn(exp, name):
         raise ExtractError('fixture %s not found in the expansion' % name)
     f = rustsrc.find_fn(exp, name, m.start(), len(exp))
     return f
+
+
+def split_colon(p):
+    """pattern: type  ->  (pattern, type), splitting at the first ':' outside brackets"""
+    depth = 0
+    for i, ch in enumerate(p):
+        if ch in '([{<':
+            depth += 1
+        elif ch in ')]}>':
+            depth -= 1
+        elif ch == ':' and depth == 0:
+            return p[:i].strip(), p[i + 1:].strip()
+    raise ExtractError('parameter %r has no type' % p)
 
 
 def split_args(s):
@@ -158,7 +179,7 @@ def extract(exp, name, attrs):
     return info
 
 
-def tail_rules(attrs):
+def tail_rules(attrs, await_interference=False, cache_static=None):
     rules = [
         Rule('R9.body_closure', tokpat(r'\( \| \| (\{.*?\}) \) \( \)') , None, 'closure call around the user body -> the block itself, preceded by the effect-log call fx_body(fx)', re.S),
         Rule('R9.body_async', tokpat(r'\( async (\{.*?\}) \) \. await'), None, 'async block + .await around the user body -> the block itself, preceded by fx_body(fx) (suspension: see the await obligations)', re.S),
@@ -169,6 +190,9 @@ def tail_rules(attrs):
         R('R0.path', r'\bcachelito_core :: ', '', 'crate path prefix'),
         R('R9.opt_none', r'Option :: < \w+ > :: None', 'None', 'typed None'),
     ]
+    if cache_static:
+        # the store static handed to ...Cache::new(&STATIC, ..) and the `cache` field of __cache are the same object
+        rules.append(R('R9.static_alias', r'\b%s \. ' % cache_static, '__cache.cache.', 'direct use of the store static -> the `cache` field of __cache (same object: first constructor argument)'))
     for key in ('cache_if', 'invalidate_on'):
         if attrs.get(key):
             rules.append(R('R9.pred:' + attrs[key], r'\b%s \( (& __key , & \w+) \)' % attrs[key], r'%s(\1, fx)' % attrs[key],
@@ -176,12 +200,17 @@ def tail_rules(attrs):
     return rules
 
 
-def apply_tail_rules(tail, attrs, log, base_line, qual):
-    for r in tail_rules(attrs):
+def apply_tail_rules(tail, attrs, log, base_line, qual, await_interference=False, cache_static=None):
+    for r in tail_rules(attrs, await_interference, cache_static):
         if r.repl is None:
-            def repl(m):
-                blk = m.group(1)
-                return '{ fx_body(fx); ' + blk[1:]
+            if await_interference and r.name == 'R9.body_async':
+                def repl(m):
+                    # other tasks run while the body is suspended: arbitrary interference (await_point) before the call resumes
+                    return '{ fx_body(fx); let __awaited = ' + m.group(1) + '; await_point(__cache); __awaited }'
+            else:
+                def repl(m):
+                    blk = m.group(1)
+                    return '{ fx_body(fx); ' + blk[1:]
             r.repl = repl
         before = len(log)
         tail = r.apply(tail, log, base_line)
